@@ -49,7 +49,8 @@ def make_doc(seed: int, prop: str) -> tuple[dict, dict]:
     cfg: dict[str, Any] = {"literal_enums": r.random() < 0.2, "docstrings_on_attributes": r.random() < 0.1}
     if r.random() < 0.2:
         # custom media types that behave as a known one but must still be SENT as themselves
-        cfg["content_type_overrides"] = {"application/x-sim-archive": "application/octet-stream", "application/x-sim-doc": "application/json"}
+        cfg["content_type_overrides"] = {"application/x-sim-archive": "application/octet-stream", "application/x-sim-doc": "application/json",
+                                         "application/vnd.SIM.Report": "application/json", "text/X-Sim-Note": "text/plain"}
         g.ct_overrides = cfg["content_type_overrides"]
     doc = g.document()
     ov = cfg.get("content_type_overrides")
@@ -298,6 +299,8 @@ class World:
         self.lit = bool(self.cfg.get("literal_enums"))
         rm.OVERRIDES.clear()
         rm.OVERRIDES.update(self.cfg.get("content_type_overrides") or {})
+        inst.CLASS_OVERRIDES.clear()
+        inst.CLASS_OVERRIDES.update(self.cfg.get("class_overrides") or {})
         self.ops = {o["operationId"]: o for o in rm.operations(self.doc) if o["operationId"]}
         self.pkg = Pkg(self.doc, self.cfg, sandbox)
         self.server = apiserver.Server()
@@ -381,6 +384,9 @@ class World:
         exp_body = None
         if body is not None:
             bs = next((b for b in op["bodies"] if b["media_type"] == body[0]), None)
+            if bs is not None and len(op["bodies"]) > 1 and inst.classify(bs["schema"], self.doc) == "any":
+                self.probe("untyped-body-in-multi-body-operation(skipped: shrink artefact)")
+                return None
             if bs is not None and not inst.conforms(bs["schema"], body[2], self.doc):
                 self.probe("call-inconsistent-with-document(skipped: shrink artefact)")
                 return None
@@ -554,11 +560,11 @@ class World:
         shape = f"{'doc' if b.get('documented') else 'undoc'}:{b.get('source')}:{inst.classify(self._resp_schema(op, st), self.doc) if b.get('documented') and self._resp_schema(op, st) else '-'}"
         self.states.add(f"resp|{shape}|{'enum' if st not in NON_ENUM_STATUSES else 'non-enum'}|raise={raise_flag}|{prep['variant']}|{'async' if prep.get('async') else 'sync'}")
         reason = self.pkg.declined_responses.get((op["method"].upper(), op["path"]), {}).get(st)
-        if b.get("documented") and reason is not None and "Unsupported content_type" not in reason:
-            # the generator declined this response with a diagnostic about its SCHEMA (e.g. it depends on a schema that was
-            # removed): accounted for by the diagnostic (C07's subject), not judged here.  A response declined because its
-            # media type is 'unsupported' IS judged: the property lists the media types that must be handled.
-            self.probe("documented-response-declined-with-diagnostic(skipped: C07)")
+        if b.get("documented") and reason is not None:
+            # The workload only documents responses of supported media types with schemas the generator supports, so a
+            # response the generator DECLINED (with a warning) is a documented status that will not be decoded.
+            self.v("C04", "documented-response-declined", re.sub(r"[A-Z][a-z]+[A-Za-z0-9_]*|/components/\S+|\d+", "*", reason)[:60],
+                   f"{prep['opid']} status {st} ({b.get('media_type')}): the generator omitted this documented response: {reason[:200]!r}")
             obs["outcome"] = None
             return obs
         if b.get("documented"):
